@@ -117,8 +117,10 @@ func (ex *Exec) oblige(kind, anchor string, guard, goal *smt.Term, pos token.Pos
 	if ex.quiet > 0 {
 		return
 	}
-	if goal.IsTrue() || guard.IsFalse() {
-		// still record trivially discharged obligations? keep the list meaningful: skip.
+	if (goal.IsTrue() || guard.IsFalse()) && panicKinds[kind] {
+		// implicit panic sites that are trivially safe are not listed; contract-labelled obligations
+		// (pre, inv-*, loop-assert, decreases, lemma, ...) always are, so that they are claimed and a
+		// later change that makes them non-trivial is noticed
 		return
 	}
 	base := fmt.Sprintf("%s#%s:%s%s", ex.fnName(), kind, prefix, anchor)
@@ -470,6 +472,7 @@ type loopInfo struct {
 	blocks  map[*ssa.BasicBlock]bool
 	ordinal int
 	invs    []*Clause
+	asserts []*Clause
 	decr    []*Clause
 	varPre  []*smt.Term // values of decreases expressions at loop head
 }
@@ -490,6 +493,8 @@ func (ex *Exec) newFrame(fn *ssa.Function, prefix string, fc *FuncContract, pc *
 							li.invs = append(li.invs, cl)
 						case "decreases":
 							li.decr = append(li.decr, cl)
+						case "assert":
+							li.asserts = append(li.asserts, cl)
 						}
 					}
 				}
@@ -980,6 +985,16 @@ func (ex *Exec) backEdge(fr *Frame, li *loopInfo, from, h *ssa.BasicBlock, cond 
 	for _, ai := range ex.autoInvariants(fr, li, h) {
 		// auto invariants are monotone-counter facts; they are re-proved, never trusted
 		ex.oblige("inv-preserved", fmt.Sprintf("loop%d:auto:%s", li.ordinal, ai.name), cond, ai.build(phiVals), token.NoPos, fr.prefix)
+	}
+	for i, cl := range li.asserts {
+		aenv := ex.envFor(fr, st, fr.entryState(ex), nil)
+		aenv.atBlock = from
+		aenv.atEnd = true
+		label := cl.Label
+		if label == "" {
+			label = fmt.Sprintf("assert%d", i+1)
+		}
+		ex.oblige("loop-assert", fmt.Sprintf("loop%d:%s", li.ordinal, label), cond, ex.evalBool(aenv, cl.E, cl), token.NoPos, fr.prefix)
 	}
 	for i, cl := range li.decr {
 		v := ex.evalInt(env, cl.E, cl)
